@@ -30,13 +30,27 @@ def compare(a, b, keys):
     return None
 
 
+# constructs outside the generator's fragment, written with names of their own: they are part of the document before and
+# after every insertion / removal, so their entries must stay byte-identical too (shared schema nodes, caches)
+PREAMBLE = {"t": "raw", "label": "TYPE", "lines": [
+    'TYPE @zpk', '{', '  "zk": 1 // {optional: true}', '}',
+    'TYPE @zbase', '{', '  "zb": 1', '}',
+    'TYPE @zpk2', '{ // {allOf: "@zbase"}', '  "zc": 1 // {optional: true}', '}',
+    'TYPE @zpo', '{', '  "zo": 1, // {optional: true}', '  "zq": "s" // {optional: true}', '}',      # used by nothing in the preamble
+    'TYPE @zalias', '@zpk2',
+    'URL /zpre/{zk}', '  Path', '    @zpk', '  GET', '    200 any',
+    'URL /zpre2/{zb}/{zc}', '  Path', '    @zalias', '  GET', '    200 @zpk2', '  PUT', '    Request @zpk', '    200 [@zpk]',
+    'ENUM @zen', '[', '  "x", // first', '  "y"', ']',
+    'TYPE @zuse', '{', '  "e": "x", // {enum: @zen}', '  "o": @zpk | @zpk2', '}']}
+
+
 def main(tier):
     chk = Check("C20", tier)
     docs = rel.valid_docs(chk, tier, [(600, 4), (500, 7)], [(6000, 4), (6000, 7), (3000, 9)])
     cases, meta = [], {}
     for n, m in enumerate(docs):
         tx = m["tx"][0]
-        d = m["doc"]
+        d = m["doc"] + ([PREAMBLE] if n % 2 == 0 else [])
         full, _, _ = apidoc.render(d)
         cases.append(rel.case("f%d" % n, full))
         for j, ad in enumerate(tx["adds"]):
@@ -44,6 +58,22 @@ def main(tier):
             cid = "a%d_%d" % (n, j)
             cases.append(rel.case(cid, more))
             meta[cid] = (cid, m, ad["pos"], ad["keys"], more, full, ad["b"]["t"])
+        if n % 2 == 0:
+            # fresh declarations that USE what the preamble declares (nothing refers to them): only their own entries appear
+            uses = [({"t": "raw", "label": "GET", "lines": ['GET /zfresh/{zk}', '  Path', '    @zpk', '  200 @zpk2']},
+                     [["interactions", "http GET /zfresh/{zk}"], ["tags", "@zfresh"]]),
+                    ({"t": "raw", "label": "GET", "lines": ['GET /zfresh2/{zb}/{zc}', '  Path', '    @zalias', '  Query', '  { // {allOf: "@zbase"}', '    "q": 1', '  }', '  200 [@zuse]']},
+                     [["interactions", "http GET /zfresh2/{zb}/{zc}"], ["tags", "@zfresh2"]]),
+                    ({"t": "raw", "label": "GET", "lines": ['GET /zfresh3/{zo}/{zq}', '  Path', '    @zpo', '  200 any']},
+                     [["interactions", "http GET /zfresh3/{zo}/{zq}"], ["tags", "@zfresh3"]]),
+                    ({"t": "raw", "label": "TYPE", "lines": ['TYPE @zfresht', '{ // {allOf: ["@zpk", "@zbase"]}', '  "own": @zuse', '}']},
+                     [["userTypes", "@zfresht"]])]
+            for j, (blk, keys) in enumerate(uses):
+                pos = (n + j) % (len(d) + 1)
+                more, _, _ = apidoc.render(d[:pos] + [blk] + d[pos:])
+                cid = "a%d_u%d" % (n, j)
+                cases.append(rel.case(cid, more))
+                meta[cid] = (cid, m, pos, keys, more, full, "uses_existing")
         for r in tx["removable"]:
             i = r["i"]
             less, _, _ = apidoc.render(d[:i - 1] + d[i:])
